@@ -56,13 +56,15 @@ class LoopInv:
 
 
 class ClassSchema:
-    def __init__(self, name, module, fields, invariant=None, record=False, keys=None, abstract=False, ctx=False):
+    def __init__(self, name, module, fields, invariant=None, record=False, keys=None, abstract=False, ctx=False, shares=None):
         self.name = name
         self.module = module
         self.fields = fields          # name -> kind string
         self.record = record          # JSON-like dict accessed by x['key']
         self.abstract = abstract      # no direct instances
         self.ctx = ctx                # usable as a context manager: enter returns the object, exit not modelled
+        self.shares = shares          # fields live in the heap arrays of this (declared) class: unrelated real classes with the
+                                      # same attributes can then be read through one static type (the class tag tells them apart)
         self.kinds = {}
 
     def kind(self, reg, f):
